@@ -38,7 +38,7 @@ CASES = {"quick": 90, "thorough": 2500}
 NSHARDS = 16
 SHARD_TIMEOUT = {"quick": 900, "thorough": 3600}
 
-CATS = ["Float", "Int", "Shaped", "Bool", "Num", "Float32", "Key", "UInt8", "Inexact", "Integer", "Complex", "Real", "UInt", "Int8", "BFloat16", "UserCat"]
+CATS = ["Float", "Int", "Shaped", "Bool", "Num", "Float32", "Key", "UInt8", "Inexact", "Integer", "Complex", "Real", "UInt", "Int8", "BFloat16", "UserCat", "UserFloat", "UserFloat"]
 DIMS = ["", "a", "a b", "*v", "...", "_", "_ a", "... 3", "#a 2", "*#v b", "a+1", "_x *v", "n=3 a", "a _ ..."]
 ARRS = ["np", "jax", "any", "union", "pep604", "typevar_bound", "typevar_constr", "duck"]
 
@@ -48,6 +48,9 @@ import jaxtyping
 
 class UserCat(jaxtyping.AbstractDtype):
     dtypes = ["float32", re.compile("u?int8")]
+
+class Float(jaxtyping.AbstractDtype):  # same NAME as an exported category, different meaning
+    dtypes = ["float32", "float64"]
 '''
 
 
@@ -67,7 +70,7 @@ def required_counters(tier):
         "route.cloudpickle": 200,
         "route.pickle": 400,
         "route.copy": 100,
-        "route.deepcopy": 100,
+        "route.deepcopy": 100, "roundtrips.two_hops": 300,
     }
 
 
@@ -100,6 +103,10 @@ def category(name):
         import jtv_user_cats
 
         return jtv_user_cats.UserCat
+    if name == "UserFloat":
+        import jtv_user_cats
+
+        return jtv_user_cats.Float
     return getattr(jaxtyping, name)
 
 
@@ -137,7 +144,7 @@ def features(expr):
             f.add("anonymous_axis")
         if "*" in dims or "+" in dims or "#" in dims:
             f.add("special_axis")
-        if cat == "UserCat":
+        if cat in ("UserCat", "UserFloat"):
             f.add("user_category")
         if cat == "Shaped":
             f.add("any_dtype")
@@ -333,6 +340,10 @@ def run_shard(rec, seed, shard, tier):
                     rec.violation("roundtrip-raises", case, f"loading {route} pickle of {expr} in another process: {out['error']}", mechanism=mech(expr, route, "other", "raises-" + out["error"].split(":")[0]))
                 elif out["hash"] != h0:
                     rec.violation("meaning-changed", case, f"{route} pickle of {expr} loaded in another process accepts differently: {first_diff(v0, out['vec'])}", mechanism=mech(expr, route, "other", "differs"))
+                elif "hop2" in out:
+                    rec.count("roundtrips.two_hops")
+                    if out["hop2"] != h0:
+                        rec.violation("meaning-changed", dict(case, where="other-process, then pickled again there"), f"{route} -> other process -> pickle there -> load: {expr} accepts differently ({out['hop2']})", mechanism=mech(expr, route, "twohop", "differs"))
         rec.sample({"expr": ["ann", "Shaped", ["ann", "Float", "np", "a"], "b"], "routes": ROUTES})
     finally:
         try:
